@@ -10,6 +10,9 @@ TRUST = ("Trusted base: go/packages + go/types type-checking of /repo's working 
 
 # id -> (technique, level text, design ref)
 CLAIMED = {
+ "C15": ("SSA path tables (media-type→codec decision tables, effect traces), type-switch tables",
+         "Static necessary conditions only: the codec decision tables of ResponseEncoder/ResponseDecoder/RequestDecoder/negotiate agree with one reference table (hence with each other), the announced media type belongs to the returned encoder on every path, no nil encoder, 415 wiring, SetContentType composition table. Does not decide byte-level round trips, Accept grammar or third-party codecs.",
+         "DESIGN.md §3 C15"),
  "C18": ("SSA path tables (decision tables over flag atoms), struct-literal field fidelity",
          "Static necessary conditions only: MergeErrors' per-field merge operators and nil rows on every SSA path, the exhaustive HTTP status / gRPC code / client classification decision tables, and like-named field fidelity of the four wire conversions. Does not prove associativity as a law nor value-level round trips.",
          "DESIGN.md §3 C18"),
